@@ -48,11 +48,11 @@ def run_mc(ctx, ns):
                 'space': 'every valid cyclepoint placement on %d samples (%d cases)' % (ns, n)})
 
 
-def record_case(n, pk, tr, rs, dc):
+def record_case(n, pk, tr, rs, dc, dtype=np.float64):
     from bycycle.cyclepoints import extrema_interpolated_phase
     raised, codes, kc = '', [], [0] * 5
     try:
-        pha = extrema_interpolated_phase(np.zeros(n), np.array(pk, dtype=int), np.array(tr, dtype=int),
+        pha = extrema_interpolated_phase(np.zeros(n, dtype=dtype), np.array(pk, dtype=int), np.array(tr, dtype=int),
                                          None if rs is None else np.array(rs, dtype=int), None if dc is None else np.array(dc, dtype=int))
         codes, kc = pj.rank_codes(list(pha), ix_phase.CONSTS)
     except Exception as ex:
@@ -80,8 +80,9 @@ def run_tv(ctx, n_cases, max_len=800):
         except Exception:
             continue
         with_mid = i % 4 != 3
-        recs.append(record_case(len(c['sig']), pk, tr, [int(x) for x in rs] if with_mid else None, [int(x) for x in dc] if with_mid else None))
-        metas.append({'kind': c['kind'], 'first_extrema': first, 'boundary': boundary, 'with_midpoints': with_mid,
+        recs.append(record_case(len(c['sig']), pk, tr, [int(x) for x in rs] if with_mid else None, [int(x) for x in dc] if with_mid else None,
+                                ix_phase.DTYPES[i % len(ix_phase.DTYPES)]))
+        metas.append({'kind': c['kind'], 'first_extrema': first, 'boundary': boundary, 'with_midpoints': with_mid, 'sig_dtype': ix_phase.DTYPES[i % len(ix_phase.DTYPES)].__name__,
                       'last_cyclepoint_to_end': len(c['sig']) - 1 - max(pk + tr)})
     verdicts = tv.validate(ctx, 'Trace_Phase', recs, label='Trace_Phase')
     for r, m, fails in zip(recs, metas, verdicts):
